@@ -1,9 +1,11 @@
 #!/usr/bin/env python3
-"""tools/mutant_sweep.py [ID-mK ...] — apply every stored seeded change to /repo in turn, run the quick check of its property
-(plus the checks named in meta.json "also_check"), restore /repo straight afterwards, and write seeded/DETECTION.json.
+"""tools/mutant_sweep.py [-j N] [ID-mK | PROP ...] — run the quick check of every stored seeded change against a scratch worktree of
+/repo's HEAD with the change applied (RVF_REPO; /repo itself is never touched), plus the checks named in meta.json "also_check";
+write seeded/DETECTION.json (the record of which check catches which change, and with which clauses).
 
-Never run while another check uses /repo (the change is applied to the live working tree for the duration of one check).
+A change whose patch no longer applies to the current tree (a later fix: commit rewrote the same lines) is recorded as such.
 """
+import concurrent.futures
 import json
 import os
 import re
@@ -18,32 +20,21 @@ def sh(*a, **k):
     return subprocess.run(a, capture_output=True, text=True, **k)
 
 
-def main():
-    want = sys.argv[1:]
-    ids = sorted(d for d in os.listdir(SEEDED) if re.fullmatch(r"[CG]\d\d-m\d+", d))
-    if want:
-        ids = [i for i in ids if i in want or i.split("-")[0] in want]
-    if sh("git", "-C", "/repo", "diff", "--quiet").returncode != 0:
-        print("/repo has uncommitted changes")
-        return 2
-    path = os.path.join(SEEDED, "DETECTION.json")
-    table = json.load(open(path)) if os.path.exists(path) else {}
-    for i in ids:
-        d = os.path.join(SEEDED, i)
-        prop = i.split("-")[0]
-        meta = json.load(open(os.path.join(d, "meta.json"))) if os.path.exists(os.path.join(d, "meta.json")) else {}
-        checks = [prop] + [c for c in meta.get("also_check", []) if c != prop]
+def one(i):
+    d = os.path.join(SEEDED, i)
+    prop = i.split("-")[0]
+    meta = json.load(open(os.path.join(d, "meta.json"))) if os.path.exists(os.path.join(d, "meta.json")) else {}
+    checks = [prop] + [c for c in meta.get("also_check", []) if c != prop]
+    w = "/tmp/wtsweep-%s" % i
+    sh("git", "-C", "/repo", "worktree", "remove", "--force", w)
+    if sh("git", "-C", "/repo", "worktree", "add", "-q", "--detach", w, "HEAD").returncode != 0:
+        return i, {"applies": None, "error": "worktree"}
+    try:
+        if sh("git", "-C", w, "apply", os.path.join(d, "patch.diff")).returncode != 0:
+            return i, {"applies": False}
         row = {}
-        if sh("git", "-C", "/repo", "apply", "--check", os.path.join(d, "patch.diff")).returncode != 0:
-            table[i] = {"applies": False}
-            print(i, "patch does not apply to the current tree")
-            continue
         for c in checks:
-            sh("git", "-C", "/repo", "apply", os.path.join(d, "patch.diff"))
-            try:
-                r = sh(os.path.join(V, "bin/check"), c, "--tier", "quick", cwd=V, env=dict(os.environ, VERIF_EVIDENCE_DIR="/tmp/mutant_evidence"))
-            finally:
-                sh("git", "-C", "/repo", "checkout", "--", ".")
+            r = sh(os.path.join(V, "bin/check"), c, "--tier", "quick", cwd=V, env=dict(os.environ, RVF_REPO=w, VERIF_EVIDENCE_DIR="/tmp/mutant_evidence/" + i))
             clauses = {}
             for line in r.stdout.splitlines():
                 if line.startswith("VIOLATION"):
@@ -51,12 +42,30 @@ def main():
                     k = m.group(1) if m else "?"
                     clauses[k] = clauses.get(k, 0) + 1
             row[c] = {"rc": r.returncode, "violations": sum(clauses.values()), "clauses": clauses}
-            print(i, c, "rc=%d" % r.returncode, clauses, flush=True)
-        table[i] = {"applies": True, "checks": row, "detected": any(v["rc"] == 1 and v["violations"] for v in row.values())}
-        json.dump(table, open(path, "w"), indent=1, sort_keys=True)
+        return i, {"applies": True, "checks": row, "detected": any(v["rc"] == 1 and v["violations"] for v in row.values())}
+    finally:
+        sh("git", "-C", "/repo", "worktree", "remove", "--force", w)
+
+
+def main():
+    args = sys.argv[1:]
+    jobs = 3
+    if args[:1] == ["-j"]:
+        jobs = int(args[1])
+        args = args[2:]
+    ids = sorted(d for d in os.listdir(SEEDED) if re.fullmatch(r"[CG]\d\d-m\d+", d))
+    if args:
+        ids = [i for i in ids if i in args or i.split("-")[0] in args]
+    path = os.path.join(SEEDED, "DETECTION.json")
+    table = json.load(open(path)) if os.path.exists(path) else {}
+    with concurrent.futures.ThreadPoolExecutor(jobs) as ex:
+        for i, row in ex.map(one, ids):
+            table[i] = row
+            print(i, row.get("applies"), row.get("detected"), {c: v["clauses"] for c, v in row.get("checks", {}).items()}, flush=True)
+            json.dump(table, open(path, "w"), indent=1, sort_keys=True)
     missed = [i for i in ids if table.get(i, {}).get("applies") and not table[i]["detected"]]
-    print("swept %d, detected %d, missed %s, not applicable %s" % (len(ids), sum(1 for i in ids if table.get(i, {}).get("detected")), missed,
-                                                                  [i for i in ids if not table.get(i, {}).get("applies")]))
+    print("swept %d, detected %d, missed %s, no longer applicable %s" % (len(ids), sum(1 for i in ids if table.get(i, {}).get("detected")), missed,
+                                                                          [i for i in ids if table.get(i, {}).get("applies") is False]))
     return 0
 
 
